@@ -415,6 +415,67 @@ def oracle_sequences(ctx, d, t):
                         break
 
 
+def oracle_held_coordinatesystems(ctx, d, t):
+    """The coordinate system of an image keeps agreeing with the axis helpers while it is HELD and other images /
+    coordinate systems (of other dimensions, made directly or by slicing / reducing) are created in between."""
+    Ms = {1: "i", 2: "ij", 3: "ijk"}
+    for trial in range(ctx.pick(3, 12)):
+        order = [1, 2, 3]
+        ctx.rng.shuffle(order)
+        held = []
+        for dim in order:
+            shape = tuple(BASE_SHAPE[:dim]) if trial == 0 else tuple(ctx.rng.randint(2, 5) for _ in range(dim))
+            img = make_image(d, dim, shape)
+            held.append((dim, shape, img, img.coordinatesystem))
+        # in-between constructions of further coordinate systems
+        between = []
+        for dim, shape, img, _ in held:
+            if dim >= 2:
+                k = ctx.rng.randrange(dim)
+                r = call(lambda: img.slice(0, k).coordinatesystem)
+                between.append(f"slice(0,{k}) of the {dim}-d image")
+                r = call(lambda: d.reduce_axis(img, k).coordinatesystem)
+                between.append(f"reduce_axis({k}) of the {dim}-d image")
+        extra = ctx.rng.choice([1, 2, 3])
+        call(lambda: make_image(d, extra, tuple(BASE_SHAPE[:extra])).coordinatesystem)
+        between.append(f"new {extra}-d image")
+        for dim, shape, img, cs in held:
+            M, C = Ms[dim], "xyz"[:dim]
+            origin = [float(x) for x in np.asarray(img.origin).ravel()]
+            dims = [float(x) for x in img.dimensions]
+            vox = [ctx.rng.randrange(n) for n in shape]
+            ctx.count(("held-cs", dim, tuple(order)))
+            want = cell_centre_coordinate(t, dim, origin, dims, shape, vox)
+            got = call(lambda: [float(x) for x in np.asarray(cs.coordinate(np.array(vox) + 0.5)).ravel()])
+            seq = [f"hold coordinatesystem of {dd}-d image {list(sh)}" for dd, sh, _, _ in held] + between
+            if isinstance(got, Raised) or not np.allclose(got, want, atol=1e-9):
+                ctx.fail(f"C20:held-coordinatesystem:coordinate(dim={dim})",
+                         f"a held {dim}-d coordinate system no longer maps voxel centre {vox} where interpret_indexing says ({want}); got {got}",
+                         {"dim": dim, "shape": list(shape), "sequence": seq, "voxel": vox, "want": want, "got": repr(got)})
+                continue
+            back = call(lambda: [int(x) for x in np.asarray(cs.voxel(np.array(want))).ravel()])
+            if isinstance(back, Raised) or back != vox:
+                ctx.fail(f"C20:held-coordinatesystem:voxel(dim={dim})",
+                         f"a held {dim}-d coordinate system no longer maps the centre coordinate back to voxel {vox}; got {back}",
+                         {"dim": dim, "shape": list(shape), "sequence": seq, "voxel": vox, "got": repr(back)})
+                continue
+            for a in C:
+                pr = t["interpret"][(a, M)]
+                if isinstance(pr, Raised):
+                    continue
+                p, rev = pr
+                e = np.zeros(dim)
+                e[p] = 1.0
+                cv = call(lambda: [float(x) for x in np.asarray(cs.coordinate_vector(e)).ravel()])
+                wantv = [0.0] * dim
+                wantv["xyz".find(a)] = (-1.0 if rev else 1.0) * dims[p] / shape[p]
+                if isinstance(cv, Raised) or not np.allclose(cv, wantv, atol=1e-9):
+                    ctx.fail(f"C20:held-coordinatesystem:coordinate_vector(dim={dim},axis={a})",
+                             f"a held {dim}-d coordinate system maps the unit step along matrix axis {p} to {cv}, interpret_indexing says {wantv}",
+                             {"dim": dim, "shape": list(shape), "sequence": seq, "matrix_axis": p, "want": wantv, "got": repr(cv)})
+                    break
+
+
 class _VtkStub:
     """Records what plotting.to_vtk hands to pyevtk.hl.gridToVTK (pyevtk itself is an optional dependency)."""
 
@@ -535,8 +596,9 @@ def run(ctx):
     layout_correspondence(ctx, d, t)
     oracle(ctx, d, t)
     oracle_sequences(ctx, d, t)
+    oracle_held_coordinatesystems(ctx, d, t)
     oracle_vtk(ctx, d, t)
     ctx.cov["exhaustive"] = True
     ctx.cov["rule"] = ("exhaustive over dimensions 1-3 x all axes x both directions (finite tables, G1 tabulation of the real helpers); "
-                       "random shapes for layout helpers / slicing / reduction; distinct = distinct (clause, dim, axis, shape)")
+                       "random shapes for layout helpers / slicing / reduction; held coordinate systems across constructions of other images; distinct = distinct (clause, dim, axis, shape)")
     ctx.assumptions += ["numpy swapaxes/flip/reshape semantics", "tables are tabulated from the running code on every run (G1)"]
